@@ -232,6 +232,8 @@ pub fn scenarios() -> Vec<Scn> {
     history_scn("c08/M{post a,abort,post b}", vec![vec![Post(1), Abort, Post(2)]], Some(3), Some(4)),
     history_scn("c08/M{post a,post b,post c}||T{abort}", vec![vec![Post(1), Post(2), Post(3)], vec![Abort]], None, Some(3)),
     history_scn("c08/M{post a posts b, post c}", vec![vec![PostPosting(1, 2), Post(3)]], None, Some(4)),
+    history_scn("c08/M{post a posts b}||T{abort}", vec![vec![PostPosting(1, 2)], vec![Abort]], Some(2), Some(3)),
+    history_scn("c08/M{post a aborts}||T{post b}", vec![vec![PostAborting(1)], vec![Post(2)]], Some(2), Some(3)),
     history_scn("c08/M{abort}||T{abort}", vec![vec![Abort], vec![Abort]], Some(3), Some(5)),
     history_scn("c08/T1{post a,abort}||T2{post b,abort}", vec![vec![], vec![Post(1), Abort], vec![Post(2), Abort]], None, Some(3)),
   ];
